@@ -50,7 +50,7 @@ func c08Recover(res *string) {
 	}
 }
 
-const c08CoreHist = 16
+const c08CoreHist = 17
 
 type c08POpt struct {
 	Name string
@@ -198,6 +198,7 @@ func c08NewParserReuse() *c08ParserReuse {
 		c08OpParse("echo \"`unclosed \\\"x"),
 		c08OpParse("echo $(( 1 + (2"),
 		c08OpParse("cat <<EOF; cat <<-'E2'\nbody $x"),
+		c08OpParse("cat <<EOF 'unclosed"), // fails with a here-document still pending
 		c08OpParse("[[ x =~ (a (b"),
 		c08OpParse("echo a; $$ rest 'x"), // a StopAt hit when the option is set
 		c08OpParseFail("echo \"abc", false),
